@@ -27,21 +27,31 @@ reg('C01', 'propchecks.c01', 'proof', T_C01 + T1, [ASCII, DEPTH, CORR,
     'loops covered by fuel only (LR engine, nesting depth 64, tokenizer loops); termination is proved for the loops of _expandwordinternal and parse()'])
 C03M = 'Bashlex.Props.C03'
 T_C03 = [('Bashlex.C03.' + t, C03M) for t in ['C03_partial', 'C03_partial_single', 'strict_known', 'strict_resolve', 'spans_hooks', 'parserRun_spans', 'wordContract']] + [('Bashlex.LR.run_sound_ord', C03M)]
+C03T = 'Bashlex.Props.C03Total'
+T_C03 += [('Bashlex.C03.' + t, C03T) for t in ['tokSpans', 'sat_nextToken_w', 'C03_total_conditional', 'C03_total_single_conditional']]
 reg('C03', 'propchecks.treespec', 'proof', T_C03 + T1, [ASCII, DEPTH, CORR,
-    'C03_partial is CONDITIONAL on the named hypothesis TokSpansAll about the token source (the tokenizer delivers positioned, non-empty, ordered tokens that start inside the input, extends a redirect over its '
-    'here-document only at the frontier, and a nested parser root does not end in two newlines unless followed by ")"); it is not discharged for the real tokenizer (needs cursor monotonicity through _readtoken/'
-    '_readtokenword/makeheredoc) and is what the per-input evaluation covers; everything above the tokenizer (LR engine with an ordered-stack invariant, all ~40 action functions, resolve, word expansion, '
-    'the loop of parse) is proved'])
-reg('C04', 'propchecks.treespec', 'proof', T1, [ASCII, DEPTH, CORR])
+    'C03_total_conditional: for every input and all options every violated clause of Spec.spansWF on every node of every returned tree is one of the recorded defects (C03_known: +heredoc, +emptydesc, empty-span:reservedword), '
+    'with ONE hypothesis left: RootEnds (the root of a nested parser run does not end in two newlines unless ")" follows - a text-level fact needed for the trailing-newline trim of _parsedolparen). The token-source hypothesis is '
+    'DISCHARGED for the real tokenizer (tokSpans: positioned, non-empty, ordered tokens starting inside the input; redirect cells extended over a here-document only at the frontier; closure under the parser and nested parsers)'])
+C04M = 'Bashlex.Props.C04'
+T_C04 = [('Bashlex.C04.' + t, C04M) for t in ['C04_partial', 'C04_partial_conditional', 'C04_partial_spine', 'C04_prov', 'C04_prov_single', 'C04_leaf_text', 'C04_operator', 'C04_pipe', 'C04_redirect', 'C04_word_span',
+         'C04_spine_leaf_text', 'C04_spine_operator', 'C04_spine_pipe', 'value_slice', 'dollar_text', 'Src.slice_eq', 'textOK_origin', 'keepsEol_action', 'parserRun_C04', 'sat_action']]
+reg('C04', 'propchecks.treespec', 'proof', T_C04 + T1, [ASCII, DEPTH, CORR,
+    'C04_partial is CONDITIONAL on TokText (every delivered token: the text under its span, continuations removed, is its spelling up to four explicit residues = defects D31, D32, D31+D32, NEWLINE over here-document bodies; NOT proved from the '
+    'tokenizer; validated by #eval at every build on 1173 corpus strings and 3730 grid strings with all suffixes, strict and non-strict: 0 failures) and on TokSpansAll (= RootEnds, the rest is discharged). Above it: every reserved-word, operator, '
+    'pipe, redirect, word and assignment node at any depth is built from delivered tokens (C04_prov); operator/pipe/reserved-word nodes outside words carry exactly their text up to the recorded residues (C04_spine_*); redirects: first/operator/'
+    'target tokens, numeric fd; words: one token span with C07.PartsOK parts; value_slice/dollar_text give part texts in the token value. The word clauses (whole word, cut short, starts late), redirect-text adjacency and here-document redirect '
+    'spans stay outside (Unlinked) and are decided per input'])
 C05M = 'Bashlex.Props.C05'
 C05G = 'Bashlex.Props.C05.Gaps'
 T_C05 = [('Bashlex.C05.' + t, C05M) for t in ['C05_partial', 'C05_partial_parts', 'C05_partial_single', 'fcovers_strict', 'leaves_resolve', 'act_leaves', 'leaves_hooks', 'parserRun_leaves']] + \
         [('Bashlex.LR.run_sound_ordH', C05M)] + [('Bashlex.C05.' + t, C05G) for t in ['token_in_leaf', 'leaf_starts_at_token', 'TokLog.sorted', 'C05_tokens_in_leaves']]
+C05T = 'Bashlex.Props.C05Total'
+T_C05 += [('Bashlex.C05.' + t, C05T) for t in ['tokLog', 'C05_total_conditional', 'C05_total_single_conditional', 'C05_total_tokens_in_leaves']]
 reg('C05', 'propchecks.treespec', 'proof', T_C05 + T1, [ASCII, DEPTH, CORR,
-    'C05_partial (token level): CONDITIONAL on TokLogAll (the token-source hypothesis of C03 for an invariant that also records the log of delivered tokens, and RootEnds): one part per parser run, in order; the leaves of each part '
-    'are exactly the delivered tokens, grouped ([fd] op target = one redirect leaf, here-document bodies attached), no token duplicated, and the only tokens without a leaf are NEWLINEs in five listed grammar positions (kernel-checked '
-    'witnesses) - D19 (time with proceedonerror invents a leaf at (0,0)) is characterised exactly and excluded by a decidable predicate. NOT proved: the character-level half (text outside leaf spans is layout: needs that the tokenizer '
-    'skips only layout between tokens, TokGaps) and the link to the executable Spec.coverOK (its qsort cannot be evaluated in the kernel); both are decided per input; D11 is not a token-level defect'])
+    'C05_total_conditional (token level), with RootEnds as the only hypothesis left (the token-source hypothesis is discharged: tokLog): one part per parser run, in order; the leaves of each part are exactly the delivered tokens, grouped '
+    '([fd] op target = one redirect leaf, here-document bodies attached), no token duplicated, and the only tokens without a leaf are NEWLINEs in five listed grammar positions (kernel-checked witnesses); D19 is characterised exactly and '
+    'excluded by a decidable predicate. NOT proved: the character-level half (text outside leaf spans is layout: TokGaps) and the link to the executable Spec.coverOK (its qsort cannot be evaluated in the kernel); both are decided per input'])
 C12M = 'Bashlex.Props.C12'
 reg('C12', 'propchecks.treespec', 'proof', [('Bashlex.C12.C12_partial', C12M), ('Bashlex.C12.C12_partial_single', C12M), ('Bashlex.C12.C12_only_pipelines', C12M), ('Bashlex.C12.parserRun_ok', C12M), ('Bashlex.C12.hooks_ok', C12M), ('Bashlex.C12.sat_nextToken', 'Bashlex.Props.C12.Tokens'), ('Bashlex.C12.grammar_ok', 'Bashlex.Props.C12.Grammar')] + T1, [ASCII, DEPTH, CORR])
 
@@ -51,11 +61,17 @@ T6 = [('Bashlex.Q.run_congr', QC), ('Bashlex.Q.run_strict_irrelevant', QC), ('Ba
 C13M = 'Bashlex.Props.C13'
 T_C13 = [('Bashlex.C13.' + t, C13M) for t in ['C13_independence', 'C13_first_part', 'C13_first_part_noEOF', 'C13_partial', 'C13_partial_exn', 'C13_partial_conditional',
          'parse_unfold', 'parseLoop_eq', 'Loop.det', 'Loop.total', 'ofInput_prefix']] + [('Bashlex.nextIndex_shift', C13M), ('Bashlex.Node.shift_shift', C13M), ('Bashlex.Node.lastHeredocEnd_shift', C13M)]
-reg('C13', 'propchecks.relprops', 'proof', T_C13 + [('Bashlex.Q.run_prefix', QC), ('Bashlex.runParser_prefix', QC), ('Bashlex.Q.run_prefix_idx', QC)] + T1[:1], [ASCII, DEPTH, CORR,
+reg('C13', 'propchecks.relprops', 'proof', T_C13 + [('Bashlex.C14.C13_partial_blank', 'Bashlex.Props.C14'), ('Bashlex.C14.blankSkip_run', 'Bashlex.Props.C14')] + [('Bashlex.Q.run_prefix', QC), ('Bashlex.runParser_prefix', QC), ('Bashlex.Q.run_prefix_idx', QC)] + T1[:1], [ASCII, DEPTH, CORR,
     'C13_independence: for A whose runs are local (no read beyond its own text: parseLocal, decidable; implied by "no _getc returned None") parse(A ++ R) = parse(A) followed by the shifted parts of a '
     'fresh parse of the rest from the restart index; only that index flows between top-level commands. Replacing the rest by B itself when blank lines precede it (BlankSkip: one parser run commutes '
     'with translation past a blank prefix) is an explicit hypothesis of C13_partial_conditional and is decided per input'])
-reg('C14', 'propchecks.relprops', 'proof', T1[:1], [ASCII, DEPTH, CORR])
+C14M = 'Bashlex.Props.C14'
+T_C14 = [('Bashlex.C14.' + t, C14M) for t in ['runParser_shift', 'runParser_shift_ok', 'blankSkip_run', 'BlankSkip_conditional', 'C13_partial_blank', 'sim_nextToken', 'sim_parserRun', 'actionsHyp', 'expRel_of_npRel',
+         'shiftSafe_ok', 'consume', 'D19_witness', 'example_shift']]
+reg('C14', 'propchecks.relprops', 'proof', T_C14 + T1[:1], [ASCII, DEPTH, CORR,
+    'runParser_shift (unconditional relational walk of the whole tokenizer, word expansion, all 39 actions, the LR engine and nested parsers): one parser run on pre ++ B, pre made of blanks, tabs and newlines, is the run on B with every '
+    'span moved by |pre| (a top-level ParsingError carries pre ++ src and p + |pre|; nested errors are identical), for proceedonerror = false (D19: the constant (0,0) span of time, kernel-checked witness). This is layout invariance for a '
+    'blank prefix and the core of C14; layout edits BETWEEN tokens (the general statement), comments in the prefix and proceedonerror = true are decided per input by the relation'])
 C16M = 'Bashlex.Props.C16'
 T_C16 = [('Bashlex.C16.' + t, C16M) for t in ['C16_partial', 'C16_partial_conditional', 'frameHyp', 'parseI_sound', 'parseI_limit', 'parserRunI_rel', 'rel_action', 'rel_run', 'rel_expandwordWith']]
 reg('C16', 'propchecks.relprops', 'proof', T_C16 + T1[:1], [ASCII, DEPTH, CORR,
